@@ -80,6 +80,32 @@ class Plain:
         return 1
 
 
+class PlainChild(Plain):
+    """Inherits the annotated fields a, b and declares one of its own."""
+
+    c: float
+
+    def __init__(self, a, b, c):
+        super().__init__(a, b)
+        self.c = c
+
+
+class PlainChildRedeclares(Plain):
+    """Re-declares an inherited field with another annotation and adds one."""
+
+    b: bytes
+    d: int
+
+    def __init__(self, a, b, d):
+        super().__init__(a, b)
+        self.d = d
+
+
+@dataclasses.dataclass
+class DCChild(DC):
+    extra: int = 0
+
+
 class SlotsOnly:
     __slots__ = ("a", "_b", "c")
 
@@ -160,10 +186,12 @@ def make(rng):
               "CustomMapping": lambda x: CustomMapping(dict(x)), "defaultdict": lambda x: collections.defaultdict(list, x)}[kind]
         return kind, (lambda: mk(d)), list(d.items()), list(d.values())
     if r < 0.40:
-        which = rng.choice(["DC", "DCPrivate", "DCSlots", "NT", "NT", "NT1", "NT3", "UNT2", "UNT2", "UNT1", "UNT3", "Plain", "SlotsOnly", "VarsOnly"])
+        which = rng.choice(["DC", "DCPrivate", "DCSlots", "NT", "NT", "NT1", "NT3", "UNT2", "UNT2", "UNT1", "UNT3", "Plain", "PlainChild", "PlainChildRedeclares", "DCChild", "SlotsOnly", "VarsOnly"])
         a, b, c = atom(rng), atom(rng), atom(rng)
         if which == "DC":
             return which, (lambda: DC(1, a, b)), [("a", 1), ("b", a), ("c", b)], [1, a, b]
+        if which == "DCChild":
+            return which, (lambda: DCChild(1, a, b, 5)), [("a", 1), ("b", a), ("c", b), ("extra", 5)], [1, a, b, 5]
         if which == "DCPrivate":
             return which, (lambda: DCPrivate(a, 7, b)), [("a", a), ("z", b)], [a, b]
         if which == "DCSlots":
@@ -182,6 +210,10 @@ def make(rng):
             return which, (lambda: NT3(a, b, c)), [("p", a), ("q", b), ("r", c)], [a, b, c]
         if which == "Plain":
             return which, (lambda: Plain(a, b)), [("a", a), ("b", b)], [a, b]
+        if which == "PlainChild":
+            return which, (lambda: PlainChild(a, b, c)), [("a", a), ("b", b), ("c", c)], [a, b, c]
+        if which == "PlainChildRedeclares":
+            return which, (lambda: PlainChildRedeclares(a, b, c)), [("a", a), ("b", b), ("d", c)], [a, b, c]
         if which == "SlotsOnly":
             return which, (lambda: SlotsOnly(a, c)), [("a", a), ("c", c)], [a, c]
         # vars-only instances of ONE class differ in which public attributes they carry and in which order (types.SimpleNamespace too)
